@@ -205,18 +205,27 @@ def ts_join(rng):
     model = r.choice(['ts1', 'ts0', 'ts2'])
     op = r.choice(['none', '>', '>=', '=', '<', '<=', 'between', '>latest', '=latest'])
     conds = []
+    # the same conditions may be written with the MODEL's alias as qualifier, and comparisons with the value first
+    ql = 'm' if r.random() < 0.2 else 't'
+    flip = r.random() < 0.2
+    mirror = {'>': '<', '>=': '<=', '<': '>', '<=': '>=', '=': '='}
+    val = None
     if op == 'between':
-        conds.append("t.ts BETWEEN 3 AND 6")
+        conds.append(f"{ql}.ts BETWEEN 3 AND 6")
+        val = (3, 6)
     elif op == '>latest':
-        conds.append('t.ts > LATEST')
+        conds.append(f'{ql}.ts > LATEST')
     elif op == '=latest':
-        conds.append('t.ts = LATEST')
+        conds.append(f'{ql}.ts = LATEST')
     elif op != 'none':
-        conds.append(f't.ts {op} {r.choice([2, 4, 5])}')
+        val = r.choice([2, 4, 5])
+        conds.append(f'{val} {mirror[op]} {ql}.ts' if flip else f'{ql}.ts {op} {val}')
     groups = {'ts1': ['g'], 'ts0': [], 'ts2': ['g', 'h']}[model]
     pf = False
+    pval = None
     if groups and r.random() < 0.5:
-        conds.append(f"t.g = {r.choice([1, 2])}")
+        pval = r.choice([1, 2])
+        conds.append(f"{pval} = {ql}.g" if flip else f"{ql}.g = {pval}")
         pf = True
     extra = r.choice([''] * 12 + ['order', 'group', 'offset', 'foreign', 'having', 'group-having', 'offset-comma', 'order-expr'])
     r.shuffle(conds)
@@ -230,7 +239,7 @@ def ts_join(rng):
     if conds:
         # the same conjunction written flat, or with a parenthesised group on the right / on the left
         if len(conds) >= 2 and pf and r.random() < 0.5:
-            g = next(c for c in conds if c.startswith('t.g ='))
+            g = next(c for c in conds if '.g' in c)
             conds.insert(r.randrange(len(conds) + 1), g)          # the partition filter stated twice: same meaning
         nest = r.choice(['flat', 'flat', 'right', 'left', 'each']) if len(conds) >= 2 else 'flat'
         if nest == 'right' and len(conds) >= 3:
@@ -260,7 +269,8 @@ def ts_join(rng):
         s += ' OFFSET 1'
     # (info['extra'] names the clause kind only)
     extra = {'group-having': 'group', 'offset-comma': 'offset', 'order-expr': 'order'}.get(extra, extra)
-    return s, {'model': model, 'op': op, 'partition_filter': pf, 'extra': extra, 'limit': lim, 'model_left': left}
+    return s, {'model': model, 'op': op, 'partition_filter': pf, 'extra': extra, 'limit': lim, 'model_left': left, 'val': val, 'part_value': pval,
+               'qualifier': ql, 'value_first': flip}
 
 
 def dml(rng):
